@@ -100,10 +100,11 @@ Definition is_fundef (s : Resolved.stmt) : bool :=
   match s with SDefinition _ _ _ _ (EFunction _ _ _ _ _ _) _ => true | _ => false end.
 Lemma frag_stmts_fun fl k sc name fv kd t n params rt body b sp sp2 rest :
   frag_stmts pv sv bound fl (S k) sc (SDefinition name fv kd t (EFunction n params rt body b sp) sp2 :: rest) =
-  if (fresh_id pv sv bound fl sc fv && params_ok pv sv bound ((fv, KF (param_kinds params) KP) :: fl) sc (param_ids params)
-      && is_some (frag_stmts pv sv bound (snd (bind_scope (param_ids params) (param_kinds params) sc ((fv, KF (param_kinds params) KP) :: fl))) k
-                             (fst (bind_scope (param_ids params) (param_kinds params) sc ((fv, KF (param_kinds params) KP) :: fl))) body))%bool
-  then frag_stmts pv sv bound ((fv, KF (param_kinds params) KP) :: fl) k sc rest else None.
+  if (fresh_id pv sv bound fl sc fv && params_ok pv sv bound ((fv, KF (param_kinds params) (kind_of_ty rt)) :: fl) sc (param_ids params)
+      && fbody_check (frag_stmts pv sv bound (snd (bind_scope (param_ids params) (param_kinds params) sc ((fv, KF (param_kinds params) (kind_of_ty rt)) :: fl))) k
+                                 (fst (bind_scope (param_ids params) (param_kinds params) sc ((fv, KF (param_kinds params) (kind_of_ty rt)) :: fl))))
+                     (fun fl1 sc1 e => frag_fexpr pv sv bound fl1 k sc1 e) k body (kind_of_ty rt))%bool
+  then frag_stmts pv sv bound ((fv, KF (param_kinds params) (kind_of_ty rt)) :: fl) k sc rest else None.
 Proof. reflexivity. Qed.
 Lemma frag_expr_call fl k sc f fsp args sp :
   frag_expr pv sv bound fl (S k) sc (Resolved.ECall (ERead f fsp) args sp) =
@@ -114,6 +115,7 @@ Proof.
   revert args. induction ks as [|K ks IH]; intros [|a args]; try reflexivity.
   destruct K; cbn [frag_args]; rewrite <- IH; reflexivity.
 Qed.
+(* a definition whose value is a function (the result of a call, a function name): the name joins the functions *)
 Lemma frag_stmts_plain fl k sc s ss :
   is_fundef s = false ->
   frag_stmts pv sv bound fl (S k) sc (s :: ss) =
@@ -186,8 +188,7 @@ Proof.
     + destruct s; try discriminate Hf. destruct value; try discriminate Hf. rewrite frag_stmts_fun in H.
       match type of H with (if ?c then _ else _) = _ => destruct c eqn:Hc; [|discriminate H] end.
       apply IH in H. intros x Hx. apply H. right. exact Hx.
-    + rewrite (frag_stmts_plain _ _ _ _ _ Hf) in H. destruct (frag_stmt pv sv bound fl k sc s) as [sc0|] eqn:Hs; [|discriminate H].
-      eapply IH; exact H.
+    + rewrite (frag_stmts_plain _ _ _ _ _ Hf) in H. destruct (frag_stmt pv sv bound fl k sc s) as [sc0|] eqn:Hs; [eapply IH; exact H | discriminate H].
 Qed.
 
 Lemma frag_stmts_fnames : forall ss k fl sc sc' flr,
@@ -199,8 +200,7 @@ Proof.
     + destruct s; try discriminate Hf. destruct value; try discriminate Hf. rewrite frag_stmts_fun in H.
       match type of H with (if ?c then _ else _) = _ => destruct c eqn:Hc; [|discriminate H] end.
       apply IH in H. intros x Hx. apply H. right. exact Hx.
-    + rewrite (frag_stmts_plain _ _ _ _ _ Hf) in H. destruct (frag_stmt pv sv bound fl k sc s) as [sc0|] eqn:Hs; [|discriminate H].
-      eapply IH; exact H.
+    + rewrite (frag_stmts_plain _ _ _ _ _ Hf) in H. destruct (frag_stmt pv sv bound fl k sc s) as [sc0|] eqn:Hs; [eapply IH; exact H | discriminate H].
 Qed.
 
 End Eq.
@@ -322,24 +322,9 @@ Proof.
     apply cshape_if. eapply cshape_widen; [exact Hsb | lia | lia].
 Qed.
 
-(* the arguments of a call, one after the other: plain expressions, names of functions or lambdas *)
+(* the arguments of a call, one after the other: plain expressions or function-valued ones *)
 Definition arg_ok (k : nat) (sc : list N) (a : Resolved.expr) : Prop :=
-  frag_expr pv sv bound fl k sc a = true \/ (exists f sp, a = ERead f sp) \/
-  (exists nm params rt body pure sp k' scr,
-     a = EFunction nm params rt body pure sp /\
-     frag_stmts pv sv bound (snd (bind_scope (param_ids params) (param_kinds params) sc fl)) k'
-                (fst (bind_scope (param_ids params) (param_kinds params) sc fl)) body = Some scr).
-
-Lemma frag_fexpr_ok k sc a K : frag_fexpr pv sv bound fl k sc a = Some K -> arg_ok k sc a.
-Proof.
-  intros H. destruct k as [|k]; [discriminate|]. destruct a; try discriminate H.
-  - right. left. eauto.
-  - right. right. cbn [frag_fexpr] in H.
-    match type of H with (if ?b then _ else _) = _ => destruct b eqn:Hc; [|discriminate H] end.
-    apply andb_prop in Hc as [_ Hb].
-    match type of Hb with is_some ?x = true => destruct x as [scr|] eqn:Hx; [|discriminate Hb] end.
-    do 8 eexists. split; [reflexivity | exact Hx].
-Qed.
+  frag_expr pv sv bound fl k sc a = true \/ exists K, frag_fexpr pv sv bound fl k sc a = Some K.
 
 Lemma frag_args_ok k sc : forall ks args, frag_args pv sv bound fl k sc ks args = true -> Forall (arg_ok k sc) args.
 Proof.
@@ -347,12 +332,12 @@ Proof.
   destruct K.
   - apply andb_prop in H as [Ha Hr]. constructor; [left; exact Ha | apply IH; exact Hr].
   - apply andb_prop in H as [Ha Hr]. constructor; [|apply IH; exact Hr].
-    destruct (frag_fexpr pv sv bound fl k sc a) as [K'|] eqn:Hf; [|discriminate Ha]. eapply frag_fexpr_ok. exact Hf.
+    destruct (frag_fexpr pv sv bound fl k sc a) as [K'|] eqn:Hf; [|discriminate Ha]. right. eauto.
 Qed.
 
-Lemma L_args g : L_expr pv sv bound u fl (S g) -> (forall fl', L_fb pv sv bound u fl' g) ->
+Lemma L_args g : L_expr pv sv bound u fl g -> L_fexpr pv sv bound u fl g ->
   forall args k ctx c rs c' sc l,
-    mapM (fun a => expression (S g) a ctx) args c = Ok (rs, c') ->
+    mapM (fun a => expression g a ctx) args c = Ok (rs, c') ->
     Forall (arg_ok k sc) args ->
     exists b l', cshape u l (concat (map fst rs)) b l' c c' /\ (forall r, In r rs -> c <= snd r < c').
 Proof.
@@ -361,13 +346,7 @@ Proof.
   - apply mapM_cons_ok in Hm as (y & c1 & ys & Hy & Hys & ->). inversion Hf as [|? ? Hfa Hfs]; subst.
     destruct y as [code_a va].
     assert (H1 : exists b1 l1, cshape u l code_a b1 l1 c c1 /\ c <= va /\ va < c1).
-    { destruct Hfa as [Hfa|[(f & fsp & ->)|(nm & params & rt & body & pure & fsp & k' & scr & -> & Hfb)]]; [exact (IH k a ctx c code_a va c1 sc l Hy Hfa) | |].
-      - cbn [expression] in Hy. mon Hy. fresh_all. injection H as <- <-.
-        eexists _, _. split; [|lia]. apply cshape_plain; [lia | reflexivity | reflexivity | apply used_plain].
-      - cbn [expression] in Hy. mon Hy. fresh_all. injection H as <- <-.
-        destruct (IHF _ k' body ctx (c + 1) a0 c1 _ scr l Hm0 Hfb) as (bb & l1 & Hsb).
-        pose proof Hsb as (_ & Hcc & _).
-        eexists _, _. split; [apply cshape_fun_gen; exact Hsb | lia]. }
+    { destruct Hfa as [Hfa|(K & Hfa)]; [exact (IH k a ctx c code_a va c1 sc l Hy Hfa) | exact (IHF k a K ctx c code_a va c1 sc l Hy Hfa)]. }
     destruct H1 as (b1 & l1 & Hs1 & Hv1 & Hv2).
     destruct (IHa k ctx c1 ys c' sc l1 Hys Hfs) as (b2 & l2 & Hs2 & Hrs).
     pose proof Hs1 as (_ & Hc1 & _). pose proof Hs2 as (_ & Hc2 & _).
@@ -375,8 +354,56 @@ Proof.
     intros r [<-|Hr]; [cbn [snd]; lia | specialize (Hrs r Hr); lia].
 Qed.
 
-Lemma L_expr_succ g : (forall fl', L_expr pv sv bound u fl' g) -> L_stmts g ->
-  (forall fl' g', (g' < g)%nat -> L_fb pv sv bound u fl' g') -> L_expr pv sv bound u fl (S g).
+(* a call f(args): the callee, the arguments, the call *)
+Lemma L_call g : L_expr pv sv bound u fl g -> L_fexpr pv sv bound u fl g ->
+  forall f fsp args sp k ctx c code v c' sc l,
+    expression (S g) (Resolved.ECall (ERead f fsp) args sp) ctx c = Ok ((code, v), c') ->
+    Forall (arg_ok k sc) args ->
+    exists b l', cshape u l code b l' c c' /\ c <= v /\ v < c'.
+Proof.
+  intros IH IHF f fsp args sp k ctx c code v c' sc l Hlow Hargs.
+  cbn [expression] in Hlow. mon Hlow.
+  destruct g as [|g']; [discriminate|].
+  cbn [expression] in Hm. mon Hm. fresh_all. injection H as <- <-.
+  cbn [fst snd] in *.
+  destruct (L_args (S g') IH IHF args k ctx (c + 1) _ _ sc l Hm0 Hargs) as (b_a & l1 & Hsa & Hrs).
+  pose proof Hsa as (_ & Hca & _).
+  eexists _, _. split.
+  - eapply cshape_cons; [apply (cshape_plain u l (ICopy c f) c (c + 1)); [lia | reflexivity | reflexivity | apply used_plain] |].
+    eapply cshape_app; [exact Hsa|].
+    apply (cshape_plain u l1 _ c1 (c1 + 1)); [lia | reflexivity | reflexivity | reflexivity].
+  - lia.
+Qed.
+
+(* function-valued expressions: a function name, a lambda, a call that returns a function *)
+Lemma L_fexpr_succ g : L_expr pv sv bound u fl g -> L_fexpr pv sv bound u fl g -> (forall fl', L_fb pv sv bound u fl' g) ->
+  L_fexpr pv sv bound u fl (S g).
+Proof.
+  intros IH IHF IHB k x K ctx c code v c' sc l Hlow Hf.
+  destruct k as [|k]; [discriminate|]. destruct x; try discriminate Hf.
+  - (* ERead *)
+    cbn [expression] in Hlow. mon Hlow. fresh_all. injection H as <- <-.
+    eexists _, _. split; [|lia]. apply cshape_plain; [lia | reflexivity | reflexivity | apply used_plain].
+  - (* ECall *)
+    destruct x; try discriminate Hf. cbn [frag_fexpr] in Hf.
+    destruct (var =? pv); [discriminate Hf|].
+    destruct (fun_kind fl var) as [[|ks [|ka kr]]|]; try discriminate Hf.
+    match type of Hf with (if ?b then _ else _) = _ => destruct b eqn:Hc; [|discriminate Hf] end.
+    assert (Hargs : Forall (arg_ok k sc) args).
+    { apply (frag_args_ok k sc ks). rewrite <- Hc. clear. revert args. induction ks as [|K0 ks IHk]; intros [|a args]; try reflexivity.
+      destruct K0; cbn [frag_args]; rewrite IHk; reflexivity. }
+    eapply L_call; eassumption.
+  - (* EFunction *)
+    cbn [frag_fexpr] in Hf.
+    match type of Hf with (if ?b then _ else _) = _ => destruct b eqn:Hc; [|discriminate Hf] end.
+    apply andb_prop in Hc as [_ Hb].
+    cbn [expression] in Hlow. mon Hlow. fresh_all. injection H as <- <-.
+    destruct (IHB _ k body _ ctx (c + 1) a0 c' _ l Hm0 Hb) as (bb & l1 & Hsb).
+    pose proof Hsb as (_ & Hcc & _).
+    eexists _, _. split; [apply cshape_fun_gen; exact Hsb | lia].
+Qed.
+
+Lemma L_expr_succ g : (forall fl', L_expr pv sv bound u fl' g) -> L_stmts g -> L_fexpr pv sv bound u fl g -> L_expr pv sv bound u fl (S g).
 Proof.
   intros IHall IHs IHF. pose proof (IHall fl) as IH. intros k x ctx c code v c' sc l Hlow Hfrag.
   destruct k as [|k]; [discriminate|].
@@ -392,18 +419,7 @@ Proof.
     { destruct (var =? pv).
       - destruct args as [|a [|? ?]]; try discriminate Hfrag. frag_split Hfrag. constructor; [left; exact Hfr | constructor].
       - destruct (fun_kind fl var) as [[|ks [|? ?]]|]; try discriminate Hfrag. eapply frag_args_ok. exact Hfrag. }
-    clear Hfrag.
-    cbn [expression] in Hlow. mon Hlow.
-    destruct g as [|g']; [discriminate|].
-    cbn [expression] in Hm. mon Hm. fresh_all. injection H as <- <-.
-    cbn [fst snd] in *.
-    destruct (L_args g' IH (fun fl' => IHF fl' g' (Nat.lt_succ_diag_r g')) args k ctx (c + 1) _ _ sc l Hm0 Hargs) as (b_a & l1 & Hsa & Hrs).
-    pose proof Hsa as (_ & Hca & _).
-    eexists _, _. split.
-    + eapply cshape_cons; [apply (cshape_plain u l (ICopy c var) c (c + 1)); [lia | reflexivity | reflexivity | apply used_plain] |].
-      eapply cshape_app; [exact Hsa|].
-      apply (cshape_plain u l1 _ c1 (c1 + 1)); [lia | reflexivity | reflexivity | reflexivity].
-    + lia.
+    eapply L_call; eassumption.
   - (* EBinOp *)
     frag_split Hfrag.
     destruct op; try discriminate Hfrag.
@@ -578,11 +594,15 @@ Variable sv : N.
 Variable bound : N.
 Variable u : counts.
 
+Lemma split_last_app {A} (l : list A) x : split_last (l ++ [x]) = Some (l, x).
+Proof. induction l as [|a l IH]; cbn; [reflexivity | rewrite IH; reflexivity]. Qed.
+
 Lemma L_stmts_of g :
   (forall fl, L_stmt pv sv bound u fl g) -> (forall fl g2, g = S (S g2) -> L_fb pv sv bound u fl g2) ->
+  (forall fl g2, g = S (S g2) -> L_fexpr pv sv bound u fl g2) ->
   forall fl, L_stmts pv sv bound u fl g.
 Proof.
-  intros IH IHF fl k ss. revert k fl. induction ss as [|s ss IHss]; intros k fl ctx c cs c' sc scr l Hm Hf.
+  intros IH IHF IHX fl k ss. revert k fl. induction ss as [|s ss IHss]; intros k fl ctx c cs c' sc scr l Hm Hf.
   - destruct (mapM_nil_ok _ _ _ _ Hm) as [-> ->]. eexists _, _. apply cshape_nil.
   - destruct k as [|k]; [discriminate|].
     apply mapM_cons_ok in Hm as (y & c1 & ys & Hy & Hys & ->). cbn [concat].
@@ -590,10 +610,9 @@ Proof.
     + destruct s; try discriminate Hfd. destruct value; try discriminate Hfd. rewrite frag_stmts_fun in Hf.
       match type of Hf with (if ?b then _ else _) = _ => destruct b eqn:Hc; [|discriminate Hf] end.
       apply andb_prop in Hc as [_ Hfb].
-      match type of Hfb with is_some ?x = true => destruct x as [scout|] eqn:Hfbody; [|discriminate Hfb] end.
       destruct g as [|[|g2]]; [cbn in Hy; discriminate Hy | cbn in Hy; discriminate Hy |].
       cbn [statement] in Hy. rewrite definition_fun in Hy. mon Hy. fresh_all.
-      destruct (IHF _ g2 eq_refl k body ctx (c + 1) a0 c1 _ scout l Hm0 Hfbody) as (bb & l1 & Hsb).
+      destruct (IHF _ g2 eq_refl k body _ ctx (c + 1) a0 c1 _ l Hm0 Hfb) as (bb & l1 & Hsb).
       destruct (IHss k _ ctx c1 ys c' sc scr l1 Hys Hf) as (b2 & l2 & Hs2).
       eexists _, _. eapply cshape_app; [apply cshape_fun_gen; exact Hsb | exact Hs2].
     + rewrite (frag_stmts_plain _ _ _ _ _ _ _ _ Hfd) in Hf.
@@ -604,48 +623,69 @@ Proof.
 Qed.
 
 (* the body of a function: its last statement, if an expression, is returned *)
-Lemma L_fb_of g : (forall fl, L_expr pv sv bound u fl g) -> (forall fl, L_stmts pv sv bound u fl g) -> forall fl, L_fb pv sv bound u fl g.
+Lemma L_fb_of g : (forall fl, L_expr pv sv bound u fl g) -> (forall fl, L_stmts pv sv bound u fl g) ->
+  (forall fl, L_fexpr pv sv bound u fl g) -> forall fl, L_fb pv sv bound u fl g.
 Proof.
-  intros IHe IHs fl k body ctx c code c' sc scr l Hlow Hfrag. unfold lower_fbody in Hlow.
+  intros IHe IHs IHX fl k body rk ctx c code c' sc l Hlow Hcheck. unfold lower_fbody in Hlow.
   destruct (rev body) as [|last init_rev] eqn:Hrev.
   - apply ret_ok in Hlow as [<- <-]. eexists _, _. apply cshape_nil.
   - assert (Hbody : body = rev init_rev ++ [last]) by (rewrite <- (rev_involutive body), Hrev; reflexivity).
-    rewrite Hbody in Hfrag. clear Hbody Hrev.
-    mon Hlow. apply lower_list_ok in Hm as (cs & Hmi & ->).
-    destruct (frag_stmts_app _ _ _ _ _ _ _ _ _ Hfrag) as (sc1 & fl1 & k' & Hfi & Hfl).
-    destruct (IHs fl k (rev init_rev) ctx c cs c0 sc (sc1, fl1) l Hmi Hfi) as (b1 & l1 & Hs1).
-    assert (Hgen : forall y, statement g last ctx c0 = Ok (y, c') -> exists b l', cshape u l (concat cs ++ y) b l' c c').
-    { intros y Hy. assert (Hm1 : mapM (fun s => statement g s ctx) [last] c0 = Ok ([y], c')) by (cbn [mapM]; unfold IR.bind, IR.ret; rewrite Hy; reflexivity).
-      destruct (IHs fl1 k' [last] ctx c0 [y] c' sc1 scr l1 Hm1 Hfl) as (b2 & l2 & Hs2). cbn [concat] in Hs2. rewrite app_nil_r in Hs2.
-      eexists _, _. eapply cshape_app; eassumption. }
-    destruct last; try (apply Hgen; exact Hm0).
-    clear Hgen. destruct k' as [|k']; [discriminate|]. rewrite (frag_stmts_plain pv sv bound fl1) in Hfl by reflexivity.
-    destruct k' as [|k'']; [discriminate|]. rewrite frag_stmt_sexpr in Hfl.
-    destruct (frag_expr pv sv bound fl1 k'' sc1 value) eqn:Hfe; [|discriminate Hfl].
-    mon Hm0. destruct a as [cv rv]. cbn [fst snd] in *.
-    destruct (IHe fl1 k'' value ctx c0 cv rv c' sc1 l1 Hm Hfe) as (b2 & l2 & Hs2 & _).
-    pose proof Hs2 as (_ & ? & _).
-    eexists _, _. eapply cshape_app; [exact Hs1|]. eapply cshape_app; [exact Hs2|].
-    apply (cshape_plain u l2 (IReturn rv) c' c'); [lia | reflexivity | reflexivity | reflexivity].
+    clear Hrev. mon Hlow. apply lower_list_ok in Hm as (cs & Hmi & ->).
+    unfold fbody_check in Hcheck. destruct rk as [|ka kr].
+    + (* a plain result *)
+      match type of Hcheck with match ?x with _ => _ end = _ => destruct x as [scr|] eqn:Hfrag; [|discriminate Hcheck] end.
+      destruct (frag_stmts_app _ _ _ _ _ _ _ _ _ Hfrag) as (sc1 & fl1 & k' & Hfi & Hfl).
+      destruct (IHs fl k (rev init_rev) ctx c cs c0 sc (sc1, fl1) l Hmi Hfi) as (b1 & l1 & Hs1).
+      assert (Hgen : forall y, statement g last ctx c0 = Ok (y, c') -> exists b l', cshape u l (concat cs ++ y) b l' c c').
+      { intros y Hy. assert (Hm1 : mapM (fun s => statement g s ctx) [last] c0 = Ok ([y], c')) by (cbn [mapM]; unfold IR.bind, IR.ret; rewrite Hy; reflexivity).
+        destruct (IHs fl1 k' [last] ctx c0 [y] c' sc1 scr l1 Hm1 Hfl) as (b2 & l2 & Hs2). cbn [concat] in Hs2. rewrite app_nil_r in Hs2.
+        eexists _, _. eapply cshape_app; eassumption. }
+      destruct last; try (apply Hgen; exact Hm0).
+      clear Hgen. destruct k' as [|k']; [discriminate|]. rewrite (frag_stmts_plain pv sv bound fl1) in Hfl by reflexivity.
+      destruct k' as [|k'']; [discriminate|]. rewrite frag_stmt_sexpr in Hfl.
+      destruct (frag_expr pv sv bound fl1 k'' sc1 value) eqn:Hfe; [|discriminate Hfl].
+      mon Hm0. destruct a as [cv rv]. cbn [fst snd] in *.
+      destruct (IHe fl1 k'' value ctx c0 cv rv c' sc1 l1 Hm Hfe) as (b2 & l2 & Hs2 & _).
+      pose proof Hs2 as (_ & ? & _).
+      eexists _, _. eapply cshape_app; [exact Hs1|]. eapply cshape_app; [exact Hs2|].
+      apply (cshape_plain u l2 (IReturn rv) c' c'); [lia | reflexivity | reflexivity | reflexivity].
+    + (* a function result: the last statement is a function-valued expression *)
+      rewrite split_last_app in Hcheck. destruct last; try discriminate Hcheck.
+      apply andb_prop in Hcheck as [_ Hcheck].
+      destruct (frag_stmts pv sv bound fl k sc (rev init_rev)) as [[sc1 fl1]|] eqn:Hfi; [|discriminate Hcheck].
+      destruct (frag_fexpr pv sv bound fl1 k sc1 value) as [K|] eqn:Hfe; [|discriminate Hcheck].
+      destruct (IHs fl k (rev init_rev) ctx c cs c0 sc (sc1, fl1) l Hmi Hfi) as (b1 & l1 & Hs1).
+      mon Hm0. destruct a as [cv rv]. cbn [fst snd] in *.
+      destruct (IHX fl1 k value K ctx c0 cv rv c' sc1 l1 Hm Hfe) as (b2 & l2 & Hs2 & _).
+      pose proof Hs2 as (_ & ? & _).
+      eexists _, _. eapply cshape_app; [exact Hs1|]. eapply cshape_app; [exact Hs2|].
+      apply (cshape_plain u l2 (IReturn rv) c' c'); [lia | reflexivity | reflexivity | reflexivity].
 Qed.
 
+Lemma L_fexpr_zero fl : L_fexpr pv sv bound u fl O.
+Proof. intros k x K ctx c code v c' sc l H. discriminate. Qed.
+
 Theorem L_all g : forall g', (g' <= g)%nat -> forall fl,
-  L_expr pv sv bound u fl g' /\ L_stmt pv sv bound u fl g' /\ L_stmts pv sv bound u fl g' /\ L_fb pv sv bound u fl g'.
+  L_expr pv sv bound u fl g' /\ L_stmt pv sv bound u fl g' /\ L_stmts pv sv bound u fl g' /\ L_fb pv sv bound u fl g' /\
+  L_fexpr pv sv bound u fl g'.
 Proof.
   induction g as [|g IH]; intros g' Hg.
   - assert (g' = O) by lia. subst.
     assert (Hs0 : forall fl, L_stmts pv sv bound u fl O).
-    { apply L_stmts_of; [intros fl; apply L_stmt_zero | intros fl g2 H; discriminate H]. }
+    { apply L_stmts_of; [intros fl; apply L_stmt_zero | intros fl g2 H; discriminate H | intros fl g2 H; discriminate H]. }
     intros fl. split; [apply L_expr_zero|]. split; [apply L_stmt_zero|]. split; [apply Hs0|].
-    apply L_fb_of; [intros fl'; apply L_expr_zero | exact Hs0].
+    split; [|apply L_fexpr_zero]. apply L_fb_of; [intros fl'; apply L_expr_zero | exact Hs0 | apply L_fexpr_zero].
   - destruct (Nat.eq_dec g' (S g)) as [->|Hne]; [|apply IH; lia].
     assert (He : forall g', (g' <= g)%nat -> forall fl, L_expr pv sv bound u fl g') by (intros g'' H fl; apply IH; exact H).
     assert (Hs : forall fl, L_stmts pv sv bound u fl g) by (intros fl; apply (IH g (Nat.le_refl g) fl)).
-    assert (He1 : forall fl, L_expr pv sv bound u fl (S g)) by (intros fl; apply L_expr_succ; [intros fl'; apply He; lia | apply Hs | intros fl' g'' Hg''; apply (IH g''); lia]).
+    assert (Hx : forall fl, L_fexpr pv sv bound u fl g) by (intros fl; apply (IH g (Nat.le_refl g) fl)).
+    assert (Hb : forall fl, L_fb pv sv bound u fl g) by (intros fl; apply (IH g (Nat.le_refl g) fl)).
+    assert (He1 : forall fl, L_expr pv sv bound u fl (S g)) by (intros fl; apply L_expr_succ; [intros fl'; apply He; lia | apply Hs | apply Hx]).
     assert (Hst1 : forall fl, L_stmt pv sv bound u fl (S g)) by (intros fl; apply L_stmt_succ; [intros g'' H; apply He; exact H | apply Hs]).
+    assert (Hx1 : forall fl, L_fexpr pv sv bound u fl (S g)) by (intros fl; apply L_fexpr_succ; [apply He; lia | apply Hx | exact Hb]).
     assert (Hss1 : forall fl, L_stmts pv sv bound u fl (S g)).
-    { apply L_stmts_of; [exact Hst1|]. intros fl g2 Heq. apply (IH g2); lia. }
-    intros fl. split; [apply He1|]. split; [apply Hst1|]. split; [apply Hss1|]. apply L_fb_of; assumption.
+    { apply L_stmts_of; [exact Hst1 | intros fl g2 Heq; apply (IH g2); lia | intros fl g2 Heq; apply (IH g2); lia]. }
+    intros fl. split; [apply He1|]. split; [apply Hst1|]. split; [apply Hss1|]. split; [|apply Hx1]. apply L_fb_of; assumption.
 Qed.
 
 Theorem L_expr_all fl g : L_expr pv sv bound u fl g.
@@ -655,6 +695,8 @@ Proof. apply (L_all g g (Nat.le_refl g) fl). Qed.
 Theorem L_stmts_all fl g : L_stmts pv sv bound u fl g.
 Proof. apply (L_all g g (Nat.le_refl g) fl). Qed.
 Theorem L_fb_all fl g : L_fb pv sv bound u fl g.
+Proof. apply (L_all g g (Nat.le_refl g) fl). Qed.
+Theorem L_fexpr_all fl g : L_fexpr pv sv bound u fl g.
 Proof. apply (L_all g g (Nat.le_refl g) fl). Qed.
 
 End All.
